@@ -6,9 +6,10 @@
      setup=.. blocked=<site|no> registered=0|1 werr=<class> op=<class> ctx=<class> late=<class>
      inpaths=0|1 missed=0|1
    or a group of concurrent operations of one call:
-     multi <paused 0|1> <window 0|1> <headers 0|1> <event> <deadline 0|1> <ops,comma|-> <after,comma|->
+     multi <paused 0|1> <window 0|1> <headers 0|1> <event> <deadline 0|1> <ops,comma|-> <mid,comma|-> <after,comma|->
+     (mid steps: reply | credit | resume | s.<op>)
    answered by Model/Termination.predict_multi:
-     setup=.. during=<class,..|-> after=<class,..|-> inpaths=0|1 *)
+     setup=.. blocked=<0|1,..|-> during=<class,..|-> after=<class,..|-> inpaths=0|1 *)
 let op_of = function
   | "sr" -> KSr | "sm" -> KSm | "en" -> KEn | "ri" -> KRi | "rm" -> KRm | "rt" -> KRt | "ca" -> KCa
   | "ax" -> KAx | "cl.uu" | "cl.us" -> KCall false | "cl.su" | "cl.ss" -> KCall true
@@ -51,13 +52,18 @@ let ops_of w = if w = "-" then [] else List.map op_of (String.split_on_char ',' 
 let outs l = if l = [] then "-" else String.concat "," (List.map out_str l)
 
 let handle = function
-  | ["multi"; pa; wi; he; e; dl; ops; after] ->
-    let m = { m_ops = ops_of ops; m_after = ops_of after; m_paused = bool_of_word pa;
+  | ["multi"; pa; wi; he; e; dl; ops; mid; after] ->
+    let step_of w = match w with
+      | "reply" -> MReply | "credit" -> MCredit | "resume" -> MResume
+      | _ -> if starts_with "s." w then MStart (op_of (tail "s." w)) else failwith "step" in
+    let mid = if mid = "-" then [] else List.map step_of (String.split_on_char ',' mid) in
+    let m = { m_ops = ops_of ops; m_mid = mid; m_after = ops_of after; m_paused = bool_of_word pa;
               m_window = bool_of_word wi; m_headers = bool_of_word he; m_event = event_of e;
               m_deadline = bool_of_word dl } in
     let p = predict_multi client_ops m in
-    Printf.sprintf "setup=%s during=%s after=%s inpaths=%s" (setup_str p.mp_setup) (outs p.mp_during)
-      (outs p.mp_after) (b p.mp_inpaths)
+    Printf.sprintf "setup=%s blocked=%s during=%s after=%s inpaths=%s" (setup_str p.mp_setup)
+      (if p.mp_blocked = [] then "-" else String.concat "," (List.map b p.mp_blocked))
+      (outs p.mp_during) (outs p.mp_after) (b p.mp_inpaths)
   | [o; r; e; ord; dl; stt; v] ->
     let c = { c_op = op_of o; c_reason = reason_of r; c_event = event_of e;
               c_during = (match ord with "during" -> true | "before" -> false | _ -> failwith "order");
